@@ -51,8 +51,8 @@ func main() {
 		Floors: map[string]int64{
 			"schedules":             1300,
 			"random_programs":       2000,
-			"sys_interleavings":     3000,
-			"sys_programs":          4000,
+			"sys_interleavings":     3300,
+			"sys_programs":          4400,
 			"leaf_consumptions":     6000,
 			"size_calls":            2000,
 			"decisions_with_choice": 4000,
@@ -69,8 +69,8 @@ func main() {
 			"error_agreement_checks":                     400,
 			"thorough:schedules":                         100000,
 			"thorough:random_programs":                   100000,
-			"thorough:sys_programs":                      30000,
-			"thorough:sys_interleavings":                 12000,
+			"thorough:sys_programs":                      31000,
+			"thorough:sys_interleavings":                 27000,
 			"thorough:parked_in_multiplexer":             400000,
 			"thorough:task_gate_releases":                40000,
 		},
